@@ -54,6 +54,8 @@ func floors(tier string) map[string]int64 {
 		"controls_accepted_block": 200, "controls_accepted_mempool": 100,
 	}
 	f["failed_token_calls_with_value"] = 10
+	f["offered:transfer-gas-price-above-network-price"] = 12
+	f["conserve_variants"] = 24
 	if tier == "thorough" {
 		for k := range f {
 			f[k] *= 22
